@@ -231,6 +231,20 @@ theorem unguarded_partition_batch_poisons :
 
 theorem unguarded_search_k_max_allocates : searchUnguarded ⟨2, 2, 1, true, 10⟩ 2 4294967295 20 32 = .panic := by decide
 
+/-- a space outside the three known values — negative ones included — is refused -/
+theorem create_unknown_space_refused (members dim parts repl : Nat) (space : Int) (h : space < 0 ∨ 3 ≤ space) :
+    (createInt members dim parts repl space).1 = .err := by
+  unfold createInt
+  split
+  · rename_i h0
+    have h3 : 3 ≤ space.toNat := by omega
+    have hg : createGuard ⟨dim, parts, repl, space.toNat⟩ = false := by
+      simp only [createGuard]
+      have : ¬ (space.toNat < 3) := by omega
+      simp [this]
+    simp [create, hg]
+  · rfl
+
 /-! ## item-level failures stay item-level -/
 
 theorem applyItem_safe (f : Bool) : applyItem false f ≠ .panic ∧ applyItem false f ≠ .poison := by
@@ -245,6 +259,15 @@ theorem guards_in_code :
     Generated.partitionBatchChecked = true ∧ Generated.searchBuffersUnsized = true ∧
     Generated.searchClampsK = true ∧ Generated.singleWriteIdErrors = true ∧
     Generated.applyItemErrorsNotReturned = true := by decide
+
+/-- the inventory of constructs that can take the process down on bad data, in the packages a
+request travels through (regenerated): `uuid.Must` only where ids were validated before
+(`groupBatchItemsByPartition`, after `checkBatchItemIds`) or come from a peer's answer, `rand.Intn` and
+the modulo only on replica and partition counts that `Create` bounds below, the raft loop's `Fatal`
+on a failing log store or apply function, the queue's panics on a negative priority / empty pop. A
+new site changes the list and this theorem stops checking. -/
+theorem panic_site_inventory :
+    Generated.panicSites = ["storage/dataset.go:errorsResponseToPartitionBatchResult:uuid.Must:1", "storage/dataset.go:getSearchQueryNodes:rand.Intn:1", "storage/dataset.go:groupBatchItemsByPartition:uuid.Must:1", "storage/partition.go:randomNodeId:rand.Intn:1", "storage/raft/group.go:run:Fatal:3", "utils/priority_queue.go:Peek:panic:1", "utils/priority_queue.go:Pop:panic:1", "utils/priority_queue.go:Push:panic:1", "utils/priority_queue.go:Reverse:panic:1", "utils/priority_queue.go:ToSlice:panic:1", "utils/uuid.go:UuidMod:%:3"] := by decide
 
 /-! ## non-vacuity -/
 
